@@ -31,12 +31,27 @@ Built(rec) == IF rec.res.r = "ok" THEN [r |-> "ok", e |-> rec.res.e]
               ELSE IF rec.res.r = "err" THEN [r |-> "err", v |-> rec.res.v]
               ELSE [r |-> "unser"]
 
+\* the REAL evaluator's reading of the built object, environment by environment, against the
+\* plain computation (binds the node's meaning - operator tables, evaluation order - as the
+\* code has it, not only as Eval has it)
+JudgeReal(p, ev) ==
+    LET vs == [i \in 1..Len(ev) |->
+                 LET pv == Plain(p, Envs[i]) IN
+                 IF IsErr(pv) \/ IsUnrep(pv) \/ IsUnrep(ev[i]) THEN "NA"
+                 ELSE IF IsErr(ev[i]) THEN "evaluator-raises"
+                 ELSE IF ValEq(pv, ev[i]) THEN "OK" ELSE "evaluator-wrong-value"]
+        bad(i) == vs[i] \notin {"OK", "NA"}
+    IN  IF HasOrd(p) \/ ~\E i \in 1..Len(vs) : bad(i) THEN [v |-> "OK", env |-> 0]
+        ELSE LET i == CHOOSE i \in 1..Len(vs) : bad(i) /\ \A j \in 1..(i - 1) : ~bad(j)
+             IN [v |-> vs[i], env |-> i]
+
 Report ==
     Idx <= Len(Recs) =>
       LET rec == Recs[Idx]
           b == Built(rec)
       IN IF b.r = "unser" THEN PrintT(ToJson([id |-> rec.id, v |-> "SKIP"]))
-         ELSE LET j == Judge(rec.p, b, Envs)
+         ELSE LET j0 == Judge(rec.p, b, Envs)
+                  j == IF j0.v = "OK" THEN JudgeReal(rec.p, rec.ev) ELSE j0
                   pred == BuiltOf(Build(rec.p))
                   drift == IF pred.r = "ok" /\ b.r = "ok" THEN pred.e # b.e
                            ELSE pred.r # b.r
